@@ -52,20 +52,40 @@ Theorem C04_qlim_limited_sit_at_limit : forall solve qlim2 gens st qg c i,
 Proof. exact qrun_limited_at_limit. Qed.
 Print Assumptions C04_qlim_limited_sit_at_limit.
 
-(* enforce_q_lims = 2: `if k > len(mx)` sends k = len(mx) into mx[k] -> IndexError; = True handles the same input *)
-Theorem C04_qlim2_index_error : qrun (fun _ => Some [0; -2]) true g2 = QErr 1.
-Proof. exact qlim2_index_error. Qed.
-Print Assumptions C04_qlim2_index_error.
+(* the loop never raises the IndexError of the largest-violation selection (both modes, every oracle) ... *)
+Theorem C04_qlim_no_index_error : forall solve qlim2 gens, qrun solve qlim2 gens <> QErr 1.
+Proof. intros. apply qloop_no_index_error. Qed.
+Print Assumptions C04_qlim_no_index_error.
+(* ... which the rule before the repair (`if k > len(mx)`) did on a single lower-limit violation *)
+Theorem C04_qlim2_old_index_error :
+  select_old true g2 [0; -2] [] [1%nat] = SelErr /\ select true g2 [0; -2] [] [1%nat] = SelOk [] [1%nat].
+Proof. exact select_old_index_error. Qed.
+Print Assumptions C04_qlim2_old_index_error.
 Example C04_qlim_nonvacuous : exists st qg c,
-  qrun (fun l => match l with [] => Some [0; -2] | _ => Some [-1; 0] end) false g2 = QDone st qg c
+  qrun (fun l => match l with [] => Some [0; -2] | _ => Some [-1; 0] end) true g2 = QDone st qg c
   /\ limited st = [1%nat] /\ final_qg st qg 1 = -1.
-Proof. exact qlim1_same_input_ok. Qed.
+Proof. exact qlim2_same_input_ok. Qed.
 Print Assumptions C04_qlim_nonvacuous.
 
+(* the whole call: when every in-service bus is a reference bus powerflow.py bypasses the solver and with it the q-limit
+   loop, so the limit statement holds under the guard G04b (some bus is PV or PQ) and is refuted without it *)
+Theorem C04_qlim_within_limits_partial : forall srcs nb solve qlim2 gens st qg c i g,
+  G04b srcs nb = true -> run_q srcs nb solve qlim2 gens = QDone st qg c ->
+  nthg gens i = Some g -> g_on g = true -> g_ref g = false -> memn i (limited st) = false ->
+  g_qmin g <= final_qg st qg i <= g_qmax g.
+Proof. exact run_q_within_limits. Qed.
+Print Assumptions C04_qlim_within_limits_partial.
+Theorem C04_qlim_bypass_refuted :
+  G04b byp_srcs 2 = false /\
+  exists st qg c, run_q byp_srcs 2 (fun _ => Some [0; 3; 3]) false byp_gens = QDone st qg c /\
+                  limited st = [] /\ ~ final_qg st qg 2 <= g_qmax (mkGen 1 1 1 (-1) 1 0 true false).
+Proof. exact run_q_bypass_refuted. Qed.
+Print Assumptions C04_qlim_bypass_refuted.
+
 (* non-slack gens deliver their setpoint: rows at non-reference buses, and non-reference rows sharing a reference bus *)
-Theorem C04_gen_keeps_p_setpoint : forall n ref g s,
+Theorem C04_gen_keeps_p_setpoint : forall n ref g v s,
   memn (g_bus g) ref = false \/ (g_ref g = false /\ (1 < length (gens_on_at n (g_bus g)))%nat) ->
-  pg_after n ref g s = g_pg g.
+  pg_after n ref g v s = g_pg g.
 Proof. exact pg_after_keeps. Qed.
 Print Assumptions C04_gen_keeps_p_setpoint.
 
